@@ -78,6 +78,15 @@ LE = LabE.ref_unit
 LE_8 = LabE.new_unit("ele", "eighth", Term(((Fr(1, 8), 1), (LE, 1))))
 LE_D = LabE.new_unit("dle", "dozen", 12 * LE)
 
+# base type WITHOUT reference unit: bare units and units scaled from them (like K, °C and a user's mK).  Not part
+# of UNITS / DIMS below: nothing converts between them.
+LabN = _cls("LabN")
+LN_A = LabN.new_unit("lna", "bare a")
+LN_B = LabN.new_unit("lnb", "bare b")
+LN_KA = LabN.new_unit("klna", "kilo lna", 1000 * LN_A)
+LN_MB = LabN.new_unit("mlnb", "milli lnb", Decimal("0.001") * LN_B)
+NOREF_UNITS = ["lna", "lnb", "klna", "mlnb"]
+
 # symbol -> (type name, scale in reference units)
 UNITS = {
     "la": ("LabA", Fr(1)), "kla": ("LabA", Fr(1000)), "hla": ("LabA", Fr(2, 3)), "tla": ("LabA", Fr(7, 3)),
